@@ -1,4 +1,4 @@
-"""KNOWN FINDING C19-ps-priorities: limited PS node (capacity 2) with two priority classes: when a place frees, the
+"""C19 (D29, formerly listed as finding C19-ps-priorities; fixed by /repo 24fa53c): limited PS node (capacity 2) with two priority classes: when a place frees, the
 customer started is all_individuals[capacity-1] of the priority-flattened list, here a customer that is already
 sharing (it gets a fresh requirement) while the waiting high-priority customer is never started."""
 import ciw
